@@ -250,6 +250,10 @@ fn run_history(ctx: &mut Ctx, r: &mut Rng) {
     let mut cfg = if r.chance(3, 4) { GenCfg::exact() } else { GenCfg::smooth() };
     cfg.max_ops = 100;
     cfg.conv = false;
+    if r.chance(1, 4) {
+        cfg.max_rank = 2;
+        cfg.max_dim = 8;
+    }
     let seed_state = r.clone();
     let steps = ctx.tier.n(20, 40) as usize;
     let run = |r: &mut Rng| -> Option<(String, u64, Vec<(usize, String)>, usize)> {
